@@ -25,16 +25,19 @@ Definition tok_of (c : ascii) : retok :=
 
 Definition pattern_to_re (p : list ascii) : list retok := map tok_of p.
 
+(* f holds of some suffix of n  (what  .*  followed by the rest amounts to) *)
+Fixpoint any_tail (f : list ascii -> bool) (n : list ascii) : bool :=
+  f n || match n with [] => false | _ :: n' => any_tail f n' end.
+(* f holds of some suffix of n reached without stepping over a '/'  ( [^/]*  followed by the rest) *)
+Fixpoint seg_tail (f : list ascii -> bool) (n : list ascii) : bool :=
+  f n || match n with [] => false | x :: n' => negb (Ascii.eqb x c_slash) && seg_tail f n' end.
+
 Fixpoint re_match (r : list retok) : list ascii -> bool :=
   match r with
   | [] => fun n => match n with [] => true | _ :: _ => false end
   | RLit c :: r' => fun n => match n with x :: n' => Ascii.eqb x c && re_match r' n' | [] => false end
-  | RAny :: r' =>
-      fix any (n : list ascii) : bool :=
-        re_match r' n || match n with [] => false | _ :: n' => any n' end
-  | RSeg :: r' =>
-      fix seg (n : list ascii) : bool :=
-        re_match r' n || match n with [] => false | x :: n' => negb (Ascii.eqb x c_slash) && seg n' end
+  | RAny :: r' => any_tail (re_match r')
+  | RSeg :: r' => seg_tail (re_match r')
   end.
 
 (* does the mailbox name n (a string with '/' between the levels) match the pattern p *)
